@@ -402,6 +402,7 @@ func UnpackDomainName(msg []byte, off int) (string, int, error) {
 	ptr := 0 // number of pointers followed
 Loop:
 	for {
+		verifWork(1)
 		if off >= lenmsg {
 			return "", lenmsg, ErrBuf
 		}
